@@ -188,7 +188,9 @@ def lift_rules(chk, S, r1, r2, r3):
                     rav = [T.mk("tree.ravel", (c,)) for c in coords]
                     okp = isinstance(ps, list) and ps[:-1] == rav[:num] and ps[-1] is tt
                     oks = isinstance(ss, list) and len(ss) == num + 1 and all(ss[k] == rav[k + 1 : k + 1 + lift_by] for k in range(num))
-                    r2.require(okp and oks, f"{name} primals/series", "primals = (c_0..c_{num-1}, t); series_k = (c_{k+1}, ..., c_{k+lift_by})",
+                    # the time series is (1, 0, ..., 0) with exactly as many entries as the state series (jet needs equal lengths)
+                    oks = oks and isinstance(ss[num], list) and len(ss[num]) == lift_by and (lift_by == 0 or (ss[num][0] == 1.0 and all(v == 0.0 for v in ss[num][1:])))
+                    r2.require(okp and oks, f"{name} primals/series", "primals = (c_0..c_{num-1}, t); series_k = (c_{k+1}, ..., c_{k+lift_by}); series_t = (1, 0, ..., 0) of the same length",
                                f"primals {T.show(ps, 2)}, series {T.show(ss, 2)}", ev["site"], cfg)
     chk.extra["lift_grid"] = grid
     # type guards and lifted ODEs
